@@ -146,6 +146,22 @@ where
     inflight: Inflight<E, S, I>,
 }
 
+/// What [`InflightManager::take`] removes from the table.
+///
+/// Besides the notifiers of the waiting callers it carries the entry's copy of the key and a donated fetch builder that
+/// was never used. These are user values: their destructors must not run while the cache holds its locks, so they
+/// travel with the notifiers and are dropped by the caller, outside the critical section.
+pub struct Taken<E, S, I>
+where
+    E: Eviction,
+    S: HashBuilder,
+    I: Indexer<Eviction = E>,
+{
+    pub notifiers: Vec<Notifier<Option<RawCacheEntry<E, S, I>>>>,
+    _key: E::Key,
+    _f: Option<RequiredFetchBuilderErased<E::Key, E::Value, E::Properties>>,
+}
+
 pub struct InflightManager<E, S, I>
 where
     E: Eviction,
@@ -230,27 +246,25 @@ where
         }
     }
 
-    #[expect(clippy::type_complexity)]
-    pub fn take<Q>(
-        &mut self,
-        hash: u64,
-        key: &Q,
-        id: Option<usize>,
-    ) -> Option<Vec<Notifier<Option<RawCacheEntry<E, S, I>>>>>
+    pub fn take<Q>(&mut self, hash: u64, key: &Q, id: Option<usize>) -> Option<Taken<E, S, I>>
     where
         Q: Hash + Equivalent<E::Key> + ?Sized,
     {
         match self.inflights.entry(hash, |e| key.equivalent(&e.key), |e| e.hash) {
             Entry::Occupied(o) => match id {
-                Some(id) if id == o.get().inflight.id => Some(o.remove().0.inflight),
+                Some(id) if id == o.get().inflight.id => Some(o.remove().0),
                 Some(_) => None,
-                None => Some(o.remove().0.inflight),
+                None => Some(o.remove().0),
             },
             Entry::Vacant(..) => None,
         }
-        .map(|inflight| {
-            inflight.close.store(true, Ordering::Relaxed);
-            inflight.notifiers
+        .map(|entry| {
+            entry.inflight.close.store(true, Ordering::Relaxed);
+            Taken {
+                notifiers: entry.inflight.notifiers,
+                _key: entry.key,
+                _f: entry.inflight.f,
+            }
         })
     }
 
